@@ -25,7 +25,12 @@ UNIVERSE = {
 BURN = 2
 
 
+DATA_DIR = None   # set per task: a private copy of the repo's test data under /verif/work (nothing is written into the repo)
+
+
 def data_path(name):
+    if DATA_DIR:
+        return os.path.join(DATA_DIR, name)
     import mchap
 
     return os.path.join(os.path.dirname(mchap.__file__), "tests", "test_io", "data", name)
@@ -219,6 +224,10 @@ def observe_instance(inst, rnd):
 
 
 def run(task):
+    global DATA_DIR
+    if task.get("data_dir") and DATA_DIR != task["data_dir"]:
+        DATA_DIR = task["data_dir"]
+        CTX.clear()
     op = task["op"]
     if op == "instances":
         rnd = random.Random(task["seed"])
